@@ -12,18 +12,19 @@ Record variant := {
   overwrite_fatal : bool;         (* D4 *)
   no_link_hooks : bool;           (* D5 *)
   resolve_unchecked_nil : bool;   (* D6 *)
-  convert_unchecked_nil : bool    (* D7 *)
+  convert_unchecked_nil : bool;   (* D7 *)
+  report_closed : bool            (* D8: a call made on an already ended link reports ErrClosed as a fatal error *)
 }.
 
 Definition fixed : variant :=
   {| close_chan_on_free := false; res_unbuffered := false; decoder_send_unguarded := false;
      overwrite_fatal := false; no_link_hooks := false; resolve_unchecked_nil := false;
-     convert_unchecked_nil := false |}.
+     convert_unchecked_nil := false; report_closed := false |}.
 
 Definition legacy : variant :=
   {| close_chan_on_free := true; res_unbuffered := true; decoder_send_unguarded := true;
      overwrite_fatal := true; no_link_hooks := true; resolve_unchecked_nil := true;
-     convert_unchecked_nil := true |}.
+     convert_unchecked_nil := true; report_closed := true |}.
 
 (* ---- list helpers ---- *)
 
